@@ -33,6 +33,9 @@
 //   THROWS <stage> <exception>               an exception escaped from <stage> (states / ops)
 //   ENDCASE <id>
 // Every case runs in a forked child; a child that dies is reported as  DIED <id> <wait status>.
+// Histories:   seq <sid>  { case <id> ... end }  endseq     -- the cases of the sequence are analysed one after the other in ONE
+//              forked child (several Symmetrizer / StatesClassification objects in one process); same records per case;
+//              a child that dies is reported as  DIED seq<sid> <wait status>  (the cases not reached have no ENDCASE).
 #include "ed_common.h"
 #include <sys/wait.h>
 #include <unistd.h>
@@ -195,6 +198,37 @@ int main(int argc, char* argv[]) {
         std::istringstream ss(line);
         std::string w, id;
         ss >> w >> id;
+        if (w == "seq") {
+            std::vector<std::pair<std::string, pv::Scenario> > items;
+            std::string l2;
+            while (std::getline(std::cin, l2)) {
+                std::istringstream s2(l2);
+                std::string w2, id2;
+                s2 >> w2 >> id2;
+                if (w2 == "endseq") break;
+                if (w2 != "case") continue;
+                pv::Scenario sc2;
+                pv::read_scenario(std::cin, sc2);
+                items.push_back(std::make_pair(id2, sc2));
+            }
+            fflush(stdout);
+            pid_t pid = fork();
+            if (pid == 0) {
+                for (size_t k = 0; k < items.size(); ++k) {
+                    {
+                        pv::Quiet quiet;
+                        run_case(items[k].first, items[k].second);
+                    }
+                    printf("ENDCASE %s\n", items[k].first.c_str());
+                    fflush(stdout);
+                }
+                _exit(0);
+            }
+            int status = 0;
+            waitpid(pid, &status, 0);
+            if (!(WIFEXITED(status) && WEXITSTATUS(status) == 0)) { printf("DIED seq%s %d\n", id.c_str(), status); fflush(stdout); }
+            continue;
+        }
         if (w != "case") continue;
         pv::Scenario sc;
         pv::read_scenario(std::cin, sc);
